@@ -449,70 +449,7 @@ def palette_indices(rep, fns):
              "number of colours and all pixel data as ranged symbols; at every _palette[i] the upper bound of i is below the lower bound "
              "of the palette's size (established by resize)")
 
-    class Scan(p12.IoExec):
-        def __init__(self, fns_):
-            p12.IoExec.__init__(self, fns_, {"W": (1, p12.BIG), "H": (1, p12.BIG)}, "scan")
-            self.fstack = []
-            self.nin = 0
-            self.memfns = []
-
-        def invoke(self, f, args, site=None):
-            self.fstack.append(f)
-            try:
-                return p12.IoExec.invoke(self, f, args, site)
-            finally:
-                self.fstack.pop()
-
-        def src_bits(self):
-            for f in reversed(self.fstack):
-                m = re.search(r"::(read_palette_image|read_bit_row)<(.*)$", f["full"])
-                if m:
-                    t = m.group(2)
-                    b = re.search(r"bit_aligned_pixel_reference<unsigned char, boost::mp11::mp_list<std::integral_constant<unsigned int, (\d+)>>", t)
-                    if b:
-                        return int(b.group(1))
-                    if "pixel<unsigned char" in t:
-                        return 8
-            return None
-
-        def stmt(self, s):
-            s1 = R.strip(s) if s is not None else None
-            if s1 is not None and s1.get("k") == "Decl":
-                for d in s1.get("decls", []):
-                    init = R.strip(d.get("init")) if d.get("init") is not None else None
-                    if init is not None and init.get("k") == "Call" and d.get("id"):
-                        cal = init.get("callee") or {}
-                        m = re.search(r"packed_(dynamic_)?channel_reference<[^,]+, (\d+)(, (\d+))?, (true|false)>", cal.get("cls", "")) if "::operator " in cal.get("name", "") else None
-                        if m:
-                            nb = int(m.group(4) if (m.group(4) and not m.group(1)) else m.group(2))
-                            self.env["L:%s" % d["id"]] = self.fresh(0, 2 ** nb - 1, "px%d_" % nb)
-                            return None
-            return p12.IoExec.stmt(self, s)
-
-        def on_call(self, n):
-            cal = n.get("callee") or {}
-            name = cal.get("name", "")
-            m = re.search(r"_device::read_uint(8|16|32)$", name)
-            if m:
-                return self.fresh(0, 2 ** int(m.group(1)) - 1, "in")
-            if name == "std::mem_fn":
-                for x, _ in R.find(n.get("args", []), lambda x: x.get("k") == "DeclRef" and x.get("dk") == "CXXMethod"):
-                    self.memfns.append(x.get("id"))
-                return None
-            if name.endswith("std::vector::resize") and n.get("obj") is not None:
-                vk = self.var_key(n["obj"])
-                self.vsize[vk] = self.ev(n["args"][0])
-                self.ev_event("resize", vec=vk, size=self.vsize[vk], size_bounds=self.bounds(self.vsize[vk]), line=n.get("line"))
-                return None
-            if n.get("op") == "[]" and name.endswith("std::vector::operator[]") and n.get("args"):
-                vk = self.var_key(n["args"][0])
-                if vk is not None and vk.endswith("_palette"):
-                    i = self.ev(n["args"][1])
-                    self.ev_event("index", vec=vk, idx=R.key(n["args"][1]), idx_bounds=self.bounds(i), size_bounds=self.bounds(self.vsize.get(vk)), line=n.get("line"),
-                                  loopvar=bool(i is not None and any(a.startswith("y") and a[1:].isdigit() for mon in i.t for a in mon)))
-                return None
-            return p12.IoExec.on_call(self, n)
-
+    Scan = p12.ScanExec
     readers = [f for f in fns if f["name"].endswith("reader::apply") and fmt_of(f) == "bmp" and "file_stream_device" in f["full"] and "read_and_convert<" in f["full"]]
     if not readers:
         rep.fail_analysis("R2a: no bmp reader<...,read_and_convert>::apply instantiation")
